@@ -75,7 +75,7 @@ theorem raw_decodes_partial (qt : Char × Char) (name rest : List Char) (hn : qt
   simpa [prepare, quoted, prepareRaw, h] using this
 
 /-! Non-vacuity and the shape of the failure at the undoubled positions. -/
-example : prepare (quoteOf .mysql) "a`b".toList = "`a``b`".toList := by decide
+example : lexIdent (quoteOf .mysql) (prepare (quoteOf .mysql) "a`b\"c".toList ++ ".x".toList) = some ("a`b\"c".toList, ".x".toList) := by decide
 example : lexIdent (quoteOf .postgres) ("\"a\"\"b\" rest".toList) = some ("a\"b".toList, " rest".toList) := by decide
 /-- a name containing the quote closes its own quotes when written undoubled -/
 theorem raw_breaks : lexIdent (quoteOf .postgres) (prepareRaw (quoteOf .postgres) "ix\" ON t; --".toList)
